@@ -49,6 +49,9 @@ class C08(Prop):
             yield {'kind': 'stats', 'seed': 777 + j, 'n': 100000 if tier == 'quick' else 400000}
         for cnt in [1, 2, 5, 50]:
             yield {'kind': 'count', 'n': cnt}
+        # the generator as the code seeds it (nothing patched): consecutive calls, and the events of one call, are different draws
+        for cnt in [1, 3, 40]:
+            yield {'kind': 'fresh', 'n': cnt}
 
     # ------------------------------------------------------------------ implementation
     def _alg(self, ns, dc=False):
@@ -60,6 +63,18 @@ class C08(Prop):
         if k == 'count':
             alg = self._alg(case['n'])
             return {'shapes': [list(np.asarray(f()).shape) for f in (alg.random_mt, alg.random_dc, alg.random_clvd, alg.random_sample)]}
+        if k == 'fresh':
+            alg = self._alg(case['n'])
+            res = {}
+            for name in ('random_mt', 'random_dc', 'random_clvd', 'random_sample'):
+                calls = [np.asarray(getattr(alg, name)(), dtype=float).copy() for _ in range(4)]
+                res[name] = sum(1 for i in range(4) for j in range(i) if calls[i].shape == calls[j].shape and np.array_equal(calls[i], calls[j]))
+            from MTfit.algorithms.monte_carlo import IterationSample
+            for flag in (False, True):
+                ev = IterationSample(number_events=3, number_samples=case['n'], dc=flag).random_sample()
+                arrs = [np.asarray(e, dtype=float) for e in ev]
+                res['events/%s' % ('dc' if flag else 'mt')] = sum(1 for i in range(len(arrs)) for j in range(i) if np.array_equal(arrs[i], arrs[j]))
+            return res
         if k == 'stats':
             from scipy import stats
             np.random.seed(case['seed'])
@@ -157,7 +172,7 @@ class C08(Prop):
     # ------------------------------------------------------------------ model
     def requests(self, case, impl):
         k = case['kind']
-        if k in ('stats', 'count'):
+        if k in ('stats', 'count', 'fresh'):
             return []
         ns = case['n']
         d = case['draws']
@@ -177,7 +192,7 @@ class C08(Prop):
     def compare(self, case, impl, replies):
         if 'exc' in impl:
             return [('implementation raised %s: %s' % (impl['exc'], impl.get('msg')), impl)]
-        if case['kind'] in ('stats', 'count'):
+        if case['kind'] in ('stats', 'count', 'fresh'):
             return []
         out = []
         if len(impl['cols']) != case['n']:
@@ -202,6 +217,11 @@ class C08(Prop):
                 if shp != [6, case['n']]:
                     out.append(('count', 'requested %d samples, got an array of shape %r' % (case['n'], shp), None))
             return out
+        if k == 'fresh':
+            for name, same in sorted(impl.items()):
+                if same:
+                    out.append(('independent-calls', '%s (%d samples): %d pairs of consecutive calls / events returned bit-identical samples' % (name, case['n'], same), None))
+            return out[:3]
         if k == 'stats':
             if impl['norm_err'] > 1e-12:
                 out.append(('norm', 'sampled tensors are not unit: max deviation %r' % impl['norm_err'], None))
